@@ -107,6 +107,19 @@ theorem ensureModifiable_ne_pcb (rf : Refuse) (st : List Bytes) (hp : Heap) (r :
   repeat' split at h
   all_goals first | (cases h; done) | exact moveTo_ne_pcb _ _ _ _ _ _ h
 
+/-- a successful `reserve` means `len + additional` did not overflow (`checked_add` succeeded) -/
+theorem reserve_ok_add {rf : Refuse} {st : List Bytes} {hp : Heap} {r : Handle} {n : Nat} {v : Unit} {hp1 : Heap} {r1 : Handle}
+    (h : reserve rf st hp r n = .ok v hp1 r1) : r.len + n < USIZE := by
+  unfold reserve at h
+  simp only [] at h
+  cases hc : checkedAdd r.len n with
+  | none => rw [hc] at h; cases h
+  | some x =>
+    unfold checkedAdd at hc
+    by_cases hlt : r.len + n < USIZE
+    · exact hlt
+    · rw [if_neg hlt] at hc; cases hc
+
 /-! ### what a successful hand-model write says about the raw slice the code takes -/
 
 theorem slice_of_write {ρ : Type} (rf : Refuse) (st : List Bytes) {hp1 : Heap} {r1 : Handle} {off : Nat} {bytes : Bytes}
